@@ -290,7 +290,8 @@ func pathOf1(v ssa.Value, depth int) string {
 			return ""
 		}
 		st := deref(v.X.Type()).Underlying().(*types.Struct)
-		return b + "." + st.Field(v.Field).Name()
+		_ = st
+		return b + "." + canonFieldName(v.X.Type(), v.Field)
 	case *ssa.IndexAddr:
 		b := pathOf(v.X)
 		if b == "" {
